@@ -306,7 +306,7 @@ pub fn run(args: &Args) -> i32 {
         let o = strat::run_strategy(scfg(t), Chooser::new(&[], 0));
         let firsts: Vec<u16> = (0..o.world.publishes.len()).filter_map(|r| o.world.sends.iter().find(|s| s.round == r).map(|s| s.seq)).collect();
         let n = firsts.windows(2).filter(|w| w[1] <= w[0]).count() as u64;
-        assert!(o.panic.is_some() || n >= 1, "MACHINERY: the long C08 run does not cross a sequence restart");
+        assert!(o.panic.is_some() || o.result.is_err() || n >= 1, "MACHINERY: the long C08 run does not cross a sequence restart");
         restarts_crossed += n;
     }
     rep.set("sequence_restarts_crossed_by_the_long_runs", json!(restarts_crossed));
